@@ -263,8 +263,13 @@ def _own_exit_code(c, pid, x, before):
 
 
 def _dep_failed(c, pid, x):
-    return any(ev[2] == pid and ev[5]["x"] == x and ev[5]["new"] == "ERROR" and ev[5]["where"] == "dependencychanged"
-               for ev in c.by["state"])
+    """x was cancelled because something it depends on ended in error in that scheduler
+    (judged from the workload DAG and the observed states, not from function names in /repo)."""
+    last = {}
+    for ev in c.by["state"]:
+        if ev[2] == pid and ev[5]["x"] is not None:
+            last[ev[5]["x"]] = ev[5]["new"]
+    return last.get(x) == "ERROR" and any(last.get(u) == "ERROR" for u in c.ancestors(x))
 
 
 def _sign(n):
@@ -308,7 +313,7 @@ def expected_outcomes(c, pid):
             spawn_of[ev[5]["x"]] = ev[0]        # last launch by this scheduler
     adopt_of = {}
     for ev in c.by["state"]:
-        if ev[2] == pid and ev[5]["where"] == "aio_submit" and ev[5]["new"] == "RUNNING":
+        if ev[2] == pid and ev[5].get("adopt"):
             adopt_of.setdefault(ev[5]["x"], ev[0])
 
     observed = {}     # (x, attempt) -> how that execution ended ("ok" only if the process also exited with 0)
@@ -435,7 +440,7 @@ def check_C07(c):
 
 
 def _adopted(c, pid, x):
-    return any(ev[2] == pid and ev[5]["x"] == x and ev[5]["new"] == "RUNNING" and ev[5]["where"] == "aio_submit" for ev in c.by["state"])
+    return any(ev[2] == pid and ev[5]["x"] == x and ev[5].get("adopt") for ev in c.by["state"])
 
 
 # --------------------------------------------------------------------- C08 / C09
@@ -622,7 +627,7 @@ def check_C16(c):
         if ev[2] in runs:
             runs[ev[2]]["submitted"].add(ev[5]["x"])
     for ev in c.by["state"]:
-        if ev[2] in runs and ev[5]["where"] == "aio_submit" and ev[5]["new"] == "WAITING" and ev[5]["x"] is not None:
+        if ev[2] in runs and ev[5]["new"] == "WAITING" and ev[5]["x"] is not None:
             runs[ev[2]]["linked"].add(ev[5]["x"])
     for ev in c.by["xp-exit"]:
         runs[ev[2]]["ended"] = ev[0]
@@ -644,7 +649,7 @@ def check_C16(c):
     for pid, r in runs.items():
         if pid in block_end and pid not in raised and r["submitted"] <= r["linked"]:
             r["completed"] = max([block_end[pid]] + [ev[0] for ev in c.by["state"]
-                                                     if ev[2] == pid and ev[5]["where"] == "aio_submit" and ev[5]["new"] == "WAITING"])
+                                                     if ev[2] == pid and ev[5]["new"] == "WAITING"])
     # exclusivity
     byxp = defaultdict(list)
     for pid, r in runs.items():
@@ -670,7 +675,7 @@ def check_C16(c):
             since = last[1]["order"]
         linked_at = {}
         for ev in c.by["state"]:
-            if ev[5]["where"] == "aio_submit" and ev[5]["new"] == "WAITING" and ev[0] <= upto and ev[2] in runs:
+            if ev[5]["new"] == "WAITING" and ev[0] <= upto and ev[2] in runs:
                 r = runs[ev[2]]
                 if r["xp"] == xp and r["order"] > since and ev[5]["x"] is not None:
                     prot.add(ev[5]["x"])
